@@ -34,6 +34,11 @@ def build_harness():
     env = dict(os.environ)
     env["CARGO_NET_OFFLINE"] = "true"
     t0 = time.time()
+    # signal-hook's build.rs compiles src/low_level/extract.c through the cc crate, whose
+    # rerun-if-env-changed directives switch off cargo's default "any file of the package changed"
+    # rule: an edit to extract.c alone would not be rebuilt. Drop that package's artefacts.
+    subprocess.run(["cargo", "clean", "--offline", "-p", "signal-hook"], cwd=HARNESS_DIR, env=env,
+                   stdout=subprocess.PIPE, stderr=subprocess.STDOUT, text=True)
     p = subprocess.run(["cargo", "build", "--offline"], cwd=HARNESS_DIR, env=env,
                        stdout=subprocess.PIPE, stderr=subprocess.STDOUT, text=True)
     if p.returncode != 0:
